@@ -6,6 +6,7 @@ The abstraction read -> abstract fragment uses the implementation's own accessor
 """
 import itertools, json, os
 import fw
+import c06_gen
 
 BASES = 'ACGT'
 CONTIGS = ['chr1', 'chr2', 'chr3']
@@ -544,6 +545,10 @@ class Prop(fw.PropBase):
     ID = 'C06'
     PROPS = 'Props/C06.v'
     TRUSTED = [
+        'tools/c06_gen.py (fail-closed translator of the __eq__ / umi_eq guard chains, the match_hash tuples composed with the '
+        'stores of set_site, the add_fragment capacity decision and the write_tags tag expressions into Gen/GenAssign.v); the '
+        'encoding of attributes as Z / bool parameters (None strand = 2) and the mapping of generated parameters to model '
+        'attributes in Model/C06.v (accepts, key, decide, tags_from) are hand-written and sampled by K',
         'modelled not verified: the abstraction read -> (cell, strand, contig, site, span, UMI, valid) is the implementation\'s own '
         'Fragment accessors (sample, strand, site_location / span, umi, is_valid(), match_hash); the site geometry is C09\'s subject',
         'modelled not verified: pysam AlignedSegment flag/tag storage, collections.Counter / defaultdict insertion order, '
@@ -555,6 +560,9 @@ class Prop(fw.PropBase):
     ASSUMPTIONS = ['every read carries SM and RX tags (the tagger sets them from the read name; C04/C05)',
                    'theorems about run assume it returned (max_associated_fragments >= 1 or None); cap <= 0 is modelled as the '
                    'OverflowError the Molecule constructor raises']
+
+    def regen(self):
+        return c06_gen.regen()
 
     # ---------------------------------------------------------------- streams
     def corpus_libs(self):
